@@ -273,7 +273,19 @@ func ruleEN2(c *Ctx) *rule {
 				}
 			}
 		}
-		if okChain {
+		custom := ""
+		for _, site := range callsTo(f, "mvdan.cc/sh/v3/interp.Env") {
+			for _, o := range append([]ssa.Value{site.Common().Args[0]}, origins(site.Common().Args[0])...) {
+				if mi, isMI := o.(*ssa.MakeInterface); isMI {
+					if n := namedOf(mi.X.Type()); n != nil && n.Obj().Pkg() != nil && strings.HasPrefix(n.Obj().Pkg().Path(), modPath) {
+						custom = n.Obj().Name()
+					}
+				}
+			}
+		}
+		if custom != "" {
+			r.undecided(key, c.pos(f.Pos()), "the interpreter's environment is the module's own implementation of expand.Environ ("+custom+"): which of two entries with the same name a command and its child processes see is decided by its Get and Each methods at run time, not by the order of a list")
+		} else if okChain {
 			r.ok(key, c.pos(f.Pos()), "the assembled list becomes the interpreter's environment")
 		} else {
 			r.bad(key, c.pos(f.Pos()), "the result of expand.ListEnviron is not installed with interp.Env in interp.New")
@@ -973,7 +985,7 @@ func envProperties() []*propertySpec {
 			Explanation: "Static data-flow analysis: EN1 flattens the nested append that builds the argument of expand.ListEnviron and proves that the os.Environ()-derived part precedes the part derived from the runner's env parameter (library contract: last duplicate wins); EN2 proves the chain SpokFile.Vars -> key+\"=\"+value of the same map entry -> Task.Run -> Runner.Run -> ListEnviron -> interp.Env -> interp.New link by link; EN3 proves by backward slicing (with object flow through the template and buffer objects) that Task.Commands is the output of text/template Execute over the AST command text with the variables map as data; EN4 that file.New files each variable under its identifier with the literal/builtin value and that a builtin error is propagated.",
 			NotCovered:  []string{"value semantics of join/exec (unit-tested) and of text/template itself", "quoting of values inside the shell"},
 			Assumptions: []string{"mvdan.cc/sh/v3/expand.ListEnviron: for duplicate names the last one wins (environ.go)", "godotenv.Load never overrides an ambient variable and only touches the process environment"},
-			Rules:       []func(*Ctx) *rule{ruleEN1, ruleEN2, ruleEN3, ruleEN4, ruleEN5, ruleEN6, ruleTK4, rulePS1}},
+			Rules:       []func(*Ctx) *rule{ruleEN1, ruleEN2, ruleEN3, ruleEN4, ruleEN5, ruleEN6, ruleTK4, rulePS1, rulePS2}},
 	}
 }
 
